@@ -474,7 +474,23 @@ def _delete(arr, obj, axis=None):
     return AArr((r, len(keep)), [arr.data[i * c + j] for i in range(r) for j in keep], arr.dtype)
 
 
-def _where(cond):
+def _where(cond, *xy):
+    if xy:
+        if len(xy) != 2:
+            raise_py('ValueError', 'either both or neither of x and y should be given')
+        from .values import zbool
+        sh, c, a = _broadcast(cond, xy[0])
+        sh2, c2, b = _broadcast(AArr(sh, list(c)), xy[1])
+        if sh2 != sh:
+            a = _broadcast(AArr(sh, list(a)), AArr(sh2, list(c2)))[1]
+        out = []
+        for ci, ai, bi in zip(c2, a, b):
+            ci = force(ci)
+            if isinstance(ci, bool):
+                out.append(ai if ci else bi)
+            else:
+                out.append(ops.merge([(zbool(ci), lift(ai, as_np=True)), (z3.Not(zbool(ci)), lift(bi, as_np=True))]))
+        return AArr(sh2, out)
     cond = as_array(cond)
     if cond.ndim != 1:
         raise OutOfSubset('where on non-vector')
